@@ -18,6 +18,9 @@ settings) x {plain, grey (+TimeReversal), every "generator i times TimeReversal"
   (must succeed on compatible lattices and be refused on incompatible ones), ``symmetric_grid`` against a
   rational model for 9 meshes, ``transform_reduced_vector`` against exact integer matrices, ``star(k)``
   for 14 k-points against the brute-force set of distinct images modulo 1 in exact rational arithmetic.
+* kind "spacegroup": ``PointGroup(spacegroup=...)`` for 6 irrep space groups (wbmc/structures.py) keeps exactly the
+  distinct (rotation, time reversal) parts; ``use_symmetries_index`` gives the subgroup the subset generates.
+* kind "scalar0d": a rank-0 tensor without leading axes (0-dimensional array) transforms like any other scalar.
 * kind "transform_product": ``TransformProduct`` describes the transform of a product of two quantities.
 """
 import itertools
@@ -147,6 +150,10 @@ def group_variants(tier):
 def cases(tier, seed):
     from wbmc import zoo
     yield {"kind": "transform_product"}
+    from wbmc import structures
+    for st in structures.STRUCTURES:
+        for spinor in (False, True):
+            yield {"kind": "spacegroup", "structure": st, "spinor": spinor}
     gv = list(group_variants(tier))
     for n, st, v in gv:
         yield {"kind": "algebra", "group": n, "setting": st, "variant": v}
@@ -167,9 +174,8 @@ def cases(tier, seed):
 # ------------------------------------------------------------------------------------------------
 
 def full_R(s):
-    """full orthogonal matrix + TR flag of a real PointSymmetry (via as_dict, the public serialisation)"""
-    d = s.as_dict()
-    return np.array(d["R"], dtype=float), bool(d["TR"])
+    """full orthogonal matrix (acting on polar vectors) + TR flag of a real PointSymmetry, from its documented attributes"""
+    return np.array(s.R, dtype=float) * (-1 if s.Inv else 1), bool(s.TR)
 
 
 def match_reference(syms, ref):
@@ -207,7 +213,7 @@ def mult_table(pg):
 
 def run_algebra(case):
     from wbmc import groups
-    from wannierberri.symmetry.point_symmetry import PointGroup
+    from wannierberri.symmetry.point_symmetry import PointGroup, PointSymmetry
     name, st, var = case["group"], case["setting"], case["variant"]
     specs = groups.variant_generators(name, var, st)
     ref = groups.reference_elements(specs)
@@ -267,17 +273,20 @@ def run_algebra(case):
             inv = [j for j in range(n) if tab[i][j] == [e] and tab[j][i] == [e]]
             if len(inv) != 1:
                 return {"ok": False, "key": "PointGroup:inverse", "detail": where + f" element {i} has {len(inv)} inverses"}
-        # attributes consistent: R proper, Inv, iTR, iInv
+        # attributes consistent: R proper, Inv, iTR, iInv; as_dict gives back the constructor arguments
         for s in S:
             if abs(np.linalg.det(s.R) - 1) > 1e-9 or s.iTR != (-1 if s.TR else 1) or s.iInv != (-1 if s.Inv else 1):
                 return {"ok": False, "key": "PointSymmetry:attributes", "detail": where}
-        # dictionary round trip (no lattice: PointGroup may be used for tensors only)
-        d = pg.as_dict() if pg.real_lattice is not None else None
-        if d is not None:
-            pg2 = PointGroup(dictionary=d)
-            idx2 = match_reference(pg2.symmetries, ref)
-            if idx2 is None or sorted(i for i in idx2 if i is not None) != sorted(idx) or len(idx2) != len(idx):
-                return {"ok": False, "key": "PointGroup:as_dict_roundtrip", "detail": where}
+            d = s.as_dict()
+            if set(d) != {"R", "TR"} or np.abs(np.array(d["R"]) - full_R(s)[0]).max() > 1e-12 or bool(d["TR"]) != bool(s.TR):
+                return {"ok": False, "key": "PointSymmetry.as_dict", "detail": where}
+            if not (PointSymmetry(**d) == s):
+                return {"ok": False, "key": "PointSymmetry.as_dict", "detail": where + " PointSymmetry(**as_dict()) != original"}
+        # dictionary round trip (no lattice: a PointGroup may be used for tensors only)
+        pg2 = PointGroup(dictionary=pg.as_dict())
+        idx2 = match_reference(pg2.symmetries, ref)
+        if idx2 is None or None in idx2 or sorted(idx2) != sorted(idx):
+            return {"ok": False, "key": "PointGroup:as_dict_roundtrip", "detail": where}
     if sets[0] != sets[1]:
         return {"ok": False, "key": "PointGroup:depends_on_generator_order", "detail": gtag(case)}
     return {"ok": True, "nontrivial": (("group", name, st, var) if nref > 1 else False),
@@ -573,6 +582,61 @@ def run_lattice(case):
 
 
 # ------------------------------------------------------------------------------------------------
+# kind: spacegroup — PointGroup(spacegroup=...) keeps exactly the distinct (rotation, TR) parts
+# ------------------------------------------------------------------------------------------------
+
+def run_spacegroup(case):
+    from wbmc import groups, structures
+    from wannierberri.symmetry.point_symmetry import PointGroup
+    name = case["structure"]
+    sg = structures.get_spacegroup(name, spinor=case["spinor"])
+    L = structures.lattice(name)
+    Linv_T = np.linalg.inv(L).T
+    ref = {}
+    for s in sg.symmetries:
+        R = L.T @ np.array(s.rotation, dtype=float) @ Linv_T
+        ref[groups.element_key(R, bool(s.time_reversal))] = (R, bool(s.time_reversal))
+    ref = list(ref.values())
+    where = f"structure={name} spinor={case['spinor']} space-group operations={len(sg.symmetries)} distinct point parts={len(ref)}"
+    pg = PointGroup(spacegroup=sg)
+    idx = match_reference(pg.symmetries, ref)
+    if idx is None or None in idx:
+        return {"ok": False, "key": "PointGroup(spacegroup):element_not_in_spacegroup", "detail": where}
+    if len(set(idx)) != len(idx):
+        return {"ok": False, "key": "PointGroup:duplicate_elements", "detail": where + f" size={pg.size}"}
+    if sorted(idx) != list(range(len(ref))):
+        return {"ok": False, "key": "PointGroup(spacegroup):wrong_order", "detail": where + f" size={pg.size}"}
+    if np.abs(pg.real_lattice - L).max() > 1e-12 or not pg.check_basis_symmetry(pg.real_lattice) or not pg.check_basis_symmetry(pg.recip_lattice):
+        return {"ok": False, "key": "PointGroup(spacegroup):lattice", "detail": where}
+    tab = mult_table(pg)
+    n = pg.size
+    if any(len(tab[i][j]) != 1 for i in range(n) for j in range(n)):
+        return {"ok": False, "key": "PointSymmetry.__mul__/__eq__:closure", "detail": where}
+    # a subset of operations generates the subgroup they span
+    sub = list(range(0, len(sg.symmetries), 3))
+    pgs = PointGroup(spacegroup=sg, use_symmetries_index=sub)
+    els = {groups.element_key(np.eye(3), False): (np.eye(3), False)}
+    front = list(els.values())
+    g = []
+    for i in sub:
+        s = sg.symmetries[i]
+        g.append((L.T @ np.array(s.rotation, dtype=float) @ Linv_T, bool(s.time_reversal)))
+    while front:
+        new = []
+        for R, TR in front:
+            for Rg, TRg in g:
+                k = groups.element_key(Rg @ R, TRg != TR)
+                if k not in els:
+                    els[k] = (Rg @ R, TRg != TR)
+                    new.append(els[k])
+        front = new
+    idxs = match_reference(pgs.symmetries, list(els.values()))
+    if idxs is None or None in idxs or sorted(idxs) != list(range(len(els))):
+        return {"ok": False, "key": "PointGroup(spacegroup):use_symmetries_index", "detail": where + f" subset size {pgs.size} expected {len(els)}"}
+    return {"ok": True, "nontrivial": ("spacegroup", name, case["spinor"]), "obs": {"order": n, "subset_order": len(els)}}
+
+
+# ------------------------------------------------------------------------------------------------
 # kind: transform_product
 # ------------------------------------------------------------------------------------------------
 
@@ -630,6 +694,8 @@ def run_case(case, seed):
         return run_lattice(case)
     if k == "scalar0d":
         return run_scalar0d(case)
+    if k == "spacegroup":
+        return run_spacegroup(case)
     return run_transform_product()
 
 
